@@ -186,8 +186,14 @@ def model_for(rng, stats) -> tuple[dict, str]:
             stats.inc("workload_kio_written")
             return m, "kio_written"
     whole = rng.random() < 0.5
-    stats.inc("workload_reference_whole_second" if whole else "workload_reference_sub_second")
-    return refbatch.gen_model(rng, whole), "reference"
+    m = refbatch.gen_model(rng, whole)
+    if not m["records"]:
+        stats.inc("workload_reference_empty_batch")
+    elif all(r["ts"] % 1000 == 0 for r in m["records"]):
+        stats.inc("workload_reference_whole_second")
+    else:
+        stats.inc("workload_reference_sub_second")
+    return m, "reference"
 
 
 def _kio_written(rng, stats):
@@ -197,6 +203,8 @@ def _kio_written(rng, stats):
     from kio.records.writers import write_batch
 
     base = refbatch.gen_model(rng, True, big_ok=False)
+    if not base["records"]:
+        return None
     recs = tuple(
         Record(attributes=r["attr"], timestamp=_ts(r["ts"]), offset=r["off"], key=refbatch._h(r["key"]), value=refbatch._h(r["val"]),
                headers=tuple(RecordHeader(key=refbatch._h(k), value=refbatch._h(v)) for k, v in r["hdrs"]))
@@ -514,7 +522,8 @@ def finalize(stats, tier, runs, distinct, samples, wall):
     ]
     problems = []
     for k in ("fault_flip", "fault_cut", "fault_multi", "fault_burst", "fault_magic", "fault_setcrc", "fault_torn_tail", "workload_broker_fixture",
-              "workload_kio_written", "workload_reference_whole_second", "workload_reference_sub_second", "intact_fully_exact_whole_second"):
+              "workload_kio_written", "workload_reference_whole_second", "workload_reference_sub_second", "workload_reference_empty_batch",
+              "intact_fully_exact_whole_second"):
         if not stats.get(k):
             problems.append(f"probe {k} never fired")
     return coverage, assumptions, problems
